@@ -516,7 +516,7 @@ static void setup_argument_context(PyObject **pDict, bool is_retval, struct scri
 			ch_str[1] = '\0';
 
 			insert_tuple_string(args, count++, ch_str);
-			data += 4;
+			data += ALIGN(spec->size, 4);
 			break;
 
 		case ARG_FMT_STRUCT:
